@@ -2,6 +2,7 @@
 and offers CFG utilities, dominators, loops, def-use and origin tracing over them.
 Nothing here executes the analysed code. Python 3 stdlib only."""
 import json
+import os
 import re
 import sys
 from collections import defaultdict
@@ -57,12 +58,51 @@ def strip_generics(s):
 
 
 _norm_cache = {}
+_RELOC = []      # [(regex, reference path)]: items (types, traits, constants) that moved to another module
+
+
+def install_relocations(pairs):
+    """current def-path -> reference def-path of items that were MOVED (same name, other module; the public path is
+    usually kept by a re-export): every normalised path is written in terms of the reference tree, so a rule that
+    names `track::LookupRequest` also reads `track::lookup::LookupRequest`"""
+    global _RELOC
+    _RELOC = [(re.compile(r'(?<![A-Za-z0-9_:])' + re.escape(cur) + r'(?![A-Za-z0-9_])'), ref)
+              for cur, ref in sorted(pairs, key=lambda x: -len(x[0]))]
+    _norm_cache.clear()
+
+
+def relocations_of(header, items_file):
+    """[(current, reference)] from the header of a fact file and rules/baseline_items.txt"""
+    if not os.path.exists(items_file):
+        return []
+    ref = {}
+    for l in open(items_file):
+        k, v = l.rstrip('\n').split('\t')
+        ref.setdefault(k, set()).add(v)
+    roots = {'track', 'trackers', 'utils', 'distance', 'prelude', 'examples'}
+    cur = {'adt': {a['path'] for a in header.get('adts', [])}, 'const': {c['path'] for c in header.get('consts', [])},
+           'trait': {i['trait'].split('<', 1)[0] for i in header.get('impls', [])
+                     if i.get('trait') and i['trait'].split('::', 1)[0] in roots}}
+    pairs = []
+    for k in cur:
+        new = cur[k] - ref.get(k, set())
+        gone = ref.get(k, set()) - cur[k]
+        for n in new:
+            leaf = n.rsplit('::', 1)[-1]
+            cands = [g for g in gone if g.rsplit('::', 1)[-1] == leaf]
+            same = [m for m in new if m.rsplit('::', 1)[-1] == leaf]
+            if len(cands) == 1 and len(same) == 1:
+                pairs.append((n, cands[0]))
+    return pairs
 
 
 def norm(s):
     r = _norm_cache.get(s)
     if r is None:
-        r = strip_generics(s)
+        r = s
+        for rx, rep in _RELOC:
+            r = rx.sub(rep, r)
+        r = strip_generics(r)
         r = re.sub(r"\{closure#(\d+)\}", r"{closure#\1}", r)
         _norm_cache[s] = r
     return r
@@ -646,6 +686,12 @@ class Facts:
             self._raw.setdefault(p, []).append(l)
             self.order.append(p)
         self._bodies = {}
+        # items that moved to another module are read under their reference path (reference tree: nothing moves)
+        import os as _os
+        self.relocations = relocations_of(self.header, _os.path.join(_os.path.dirname(_os.path.abspath(__file__)),
+                                                                     'baseline_items.txt')) \
+            if baseline is None else []
+        install_relocations(self.relocations)
         self.norm_index = defaultdict(list)
         for p in self._raw:
             self.norm_index[norm(p)].append(p)
@@ -656,7 +702,7 @@ class Facts:
         import inliner
         # baseline: None -> rules/baseline_fns.txt; False -> no inlining; a set -> that set
         self.baseline = inliner.load_baseline() if self._baseline_arg is None else (
-            None if self._baseline_arg is False else dict.fromkeys(self._baseline_arg, (None, None))
+            None if self._baseline_arg is False else dict.fromkeys(self._baseline_arg, (None, None, None))
             if not isinstance(self._baseline_arg, dict) else self._baseline_arg)
         self.inlined = {}
 
